@@ -74,6 +74,7 @@ import "github.com/openkruise/rollouts/api/v1beta1"
 //@ ensures workload_ref: hubRollout(dst).Spec.WorkloadRef.APIVersion == src.Spec.ObjectRef.WorkloadRef.APIVersion && hubRollout(dst).Spec.WorkloadRef.Kind == src.Spec.ObjectRef.WorkloadRef.Kind && hubRollout(dst).Spec.WorkloadRef.Name == src.Spec.ObjectRef.WorkloadRef.Name
 //@ ensures canary_strategy: hubRollout(dst).Spec.Strategy.Canary != nil && hubRollout(dst).Spec.Strategy.BlueGreen == nil && hubRollout(dst).Spec.Strategy.Paused == src.Spec.Strategy.Paused && hubRollout(dst).Spec.Disabled == src.Spec.Disabled
 //@ ensures canary_service_flag: hubRollout(dst).Spec.Strategy.Canary.DisableGenerateCanaryService == src.Spec.Strategy.Canary.DisableGenerateCanaryService
+//@ ensures pod_template_patch_kept: (hubRollout(dst).Spec.Strategy.Canary.PatchPodTemplateMetadata == nil) == (old(src.Spec.Strategy.Canary.PatchPodTemplateMetadata) == nil) && hubRollout(dst).Spec.Strategy.Canary.FailureThreshold == old(src.Spec.Strategy.Canary.FailureThreshold)
 //@ ensures steps: len(hubRollout(dst).Spec.Strategy.Canary.Steps) == len(src.Spec.Strategy.Canary.Steps) && (forall j :: 0 <= j && j < len(src.Spec.Strategy.Canary.Steps) ==> a2bStep(hubRollout(dst).Spec.Strategy.Canary.Steps, src.Spec.Strategy.Canary.Steps, j))
 //@ ensures routings: len(hubRollout(dst).Spec.Strategy.Canary.TrafficRoutings) == len(src.Spec.Strategy.Canary.TrafficRoutings) && (forall j :: 0 <= j && j < len(src.Spec.Strategy.Canary.TrafficRoutings) ==> sameRouting(hubRollout(dst).Spec.Strategy.Canary.TrafficRoutings[j], src.Spec.Strategy.Canary.TrafficRoutings[j]))
 //@ ensures style: hubRollout(dst).Spec.Strategy.Canary.EnableExtraWorkloadForCanary == (toLower(src.Annotations["rollouts.kruise.io/rolling-style"]) != toLower("Partition"))
@@ -121,6 +122,7 @@ import "github.com/openkruise/rollouts/api/v1beta1"
 //@ ensures workload_ref: hubRollout(src).Spec.Strategy.BlueGreen == nil ==> dst.Spec.ObjectRef.WorkloadRef != nil && dst.Spec.ObjectRef.WorkloadRef.APIVersion == hubRollout(src).Spec.WorkloadRef.APIVersion && dst.Spec.ObjectRef.WorkloadRef.Kind == hubRollout(src).Spec.WorkloadRef.Kind && dst.Spec.ObjectRef.WorkloadRef.Name == hubRollout(src).Spec.WorkloadRef.Name
 //@ ensures canary_strategy: hubRollout(src).Spec.Strategy.BlueGreen == nil ==> dst.Spec.Strategy.Canary != nil && dst.Spec.Strategy.Paused == hubRollout(src).Spec.Strategy.Paused && dst.Spec.Disabled == hubRollout(src).Spec.Disabled && dst.Spec.Strategy.Canary.FailureThreshold == hubRollout(src).Spec.Strategy.Canary.FailureThreshold
 //@ ensures canary_service_flag: hubRollout(src).Spec.Strategy.BlueGreen == nil ==> dst.Spec.Strategy.Canary.DisableGenerateCanaryService == hubRollout(src).Spec.Strategy.Canary.DisableGenerateCanaryService
+//@ ensures pod_template_patch_kept: hubRollout(src).Spec.Strategy.BlueGreen == nil ==> (dst.Spec.Strategy.Canary.PatchPodTemplateMetadata == nil) == (hubRollout(src).Spec.Strategy.Canary.PatchPodTemplateMetadata == nil) && dst.Spec.Strategy.Canary.FailureThreshold == hubRollout(src).Spec.Strategy.Canary.FailureThreshold
 //@ ensures steps: hubRollout(src).Spec.Strategy.BlueGreen == nil ==> len(dst.Spec.Strategy.Canary.Steps) == len(hubRollout(src).Spec.Strategy.Canary.Steps) && (forall j :: 0 <= j && j < len(hubRollout(src).Spec.Strategy.Canary.Steps) ==> b2aStep(dst.Spec.Strategy.Canary.Steps, hubRollout(src).Spec.Strategy.Canary.Steps, j))
 //@ ensures routings: hubRollout(src).Spec.Strategy.BlueGreen == nil ==> len(dst.Spec.Strategy.Canary.TrafficRoutings) == len(hubRollout(src).Spec.Strategy.Canary.TrafficRoutings) && (forall j :: 0 <= j && j < len(hubRollout(src).Spec.Strategy.Canary.TrafficRoutings) ==> sameRouting(dst.Spec.Strategy.Canary.TrafficRoutings[j], hubRollout(src).Spec.Strategy.Canary.TrafficRoutings[j]))
 //@ ensures style: hubRollout(src).Spec.Strategy.BlueGreen == nil ==> dst.Annotations["rollouts.kruise.io/rolling-style"] == ite(hubRollout(src).Spec.Strategy.Canary.EnableExtraWorkloadForCanary, toLower("Canary"), toLower("Partition"))
@@ -172,6 +174,7 @@ func verifRoundTripRollout(src *Rollout, hub *v1beta1.Rollout, back *Rollout) {
 //@ ensures status_cursor: (back.Status.CanaryStatus == nil) == (src.Status.CanaryStatus == nil) && (src.Status.CanaryStatus != nil ==> back.Status.CanaryStatus.CurrentStepIndex == src.Status.CanaryStatus.CurrentStepIndex && back.Status.CanaryStatus.NextStepIndex == src.Status.CanaryStatus.NextStepIndex && back.Status.CanaryStatus.CurrentStepState == src.Status.CanaryStatus.CurrentStepState && back.Status.CanaryStatus.FinalisingStep == src.Status.CanaryStatus.FinalisingStep)
 //@ ensures paused_disabled: back.Spec.Strategy.Paused == src.Spec.Strategy.Paused && back.Spec.Disabled == src.Spec.Disabled
 //@ ensures canary_service_flag: back.Spec.Strategy.Canary.DisableGenerateCanaryService == src.Spec.Strategy.Canary.DisableGenerateCanaryService
+//@ ensures pod_template_patch_kept: (back.Spec.Strategy.Canary.PatchPodTemplateMetadata == nil) == (old(src.Spec.Strategy.Canary.PatchPodTemplateMetadata) == nil) && back.Spec.Strategy.Canary.FailureThreshold == old(src.Spec.Strategy.Canary.FailureThreshold)
 
 // ---------- BatchRelease ----------
 //@ define hubBR(d) = as(iref(d), "*v1beta1.BatchRelease")
